@@ -1,0 +1,121 @@
+//go:build verif && leakcheck
+
+package vgirpc
+
+// verif_c41_leak.go — ADD-ONLY, compiled only with -tags "verif leakcheck".
+// Puts a counting allocator underneath the shared CheckedAllocator of
+// alloc_leakcheck.go so the C41 harness can read, between calls, both the
+// outstanding bytes (CheckedAllocator.CurrentAlloc, the number
+// LeakCheckSummary prints) and the number of live allocations, the running
+// total of allocations (to show a path really allocated something), and — for
+// a leak — the vgirpc call sites that made the allocations still live.
+
+import (
+	"fmt"
+	"runtime"
+	"sort"
+	"strings"
+	"sync"
+	"unsafe"
+
+	"github.com/apache/arrow-go/v18/arrow/memory"
+)
+
+type verifC41Alloc struct {
+	seq  int64
+	size int
+	pcs  []uintptr
+}
+
+type verifC41Counting struct {
+	inner memory.Allocator
+	mu    sync.Mutex
+	total int64
+	nlive int64
+	// live is used for leak REPORTS only. The GoAllocator's memory is garbage
+	// collected, so the address of a leaked (never freed) buffer can be handed
+	// out again: the number of live allocations is therefore a counter, not
+	// len(live).
+	live map[uintptr]verifC41Alloc
+}
+
+func (a *verifC41Counting) note(b []byte) {
+	if len(b) == 0 {
+		return
+	}
+	pcs := make([]uintptr, 32)
+	pcs = pcs[:runtime.Callers(3, pcs)]
+	a.mu.Lock()
+	a.total++
+	a.nlive++
+	a.live[uintptr(unsafe.Pointer(&b[0]))] = verifC41Alloc{seq: a.total, size: len(b), pcs: pcs}
+	a.mu.Unlock()
+}
+
+func (a *verifC41Counting) drop(b []byte) {
+	if len(b) == 0 {
+		return
+	}
+	a.mu.Lock()
+	a.nlive--
+	delete(a.live, uintptr(unsafe.Pointer(&b[0])))
+	a.mu.Unlock()
+}
+
+func (a *verifC41Counting) Allocate(size int) []byte {
+	b := a.inner.Allocate(size)
+	a.note(b)
+	return b
+}
+
+func (a *verifC41Counting) Reallocate(size int, b []byte) []byte {
+	a.drop(b)
+	out := a.inner.Reallocate(size, b)
+	a.note(out)
+	return out
+}
+
+func (a *verifC41Counting) Free(b []byte) {
+	a.drop(b)
+	a.inner.Free(b)
+}
+
+func init() {
+	counting := &verifC41Counting{inner: memory.NewGoAllocator(), live: map[uintptr]verifC41Alloc{}}
+	// Consume the Once of alloc_leakcheck.go, then install our instance: every
+	// later defaultAllocator() call returns it.
+	leakCheckOnce.Do(func() {})
+	checked = memory.NewCheckedAllocator(counting)
+	verifC41Probe = func() (int64, int64, int64) {
+		counting.mu.Lock()
+		defer counting.mu.Unlock()
+		return int64(checked.CurrentAlloc()), counting.nlive, counting.total
+	}
+	verifC41Report = func(since int64) string {
+		counting.mu.Lock()
+		var as []verifC41Alloc
+		for _, al := range counting.live {
+			if al.seq > since {
+				as = append(as, al)
+			}
+		}
+		counting.mu.Unlock()
+		sort.Slice(as, func(i, j int) bool { return as[i].seq < as[j].seq })
+		var sb strings.Builder
+		for _, al := range as {
+			fmt.Fprintf(&sb, "[%dB:", al.size)
+			frames := runtime.CallersFrames(al.pcs)
+			for {
+				fr, more := frames.Next()
+				if strings.Contains(fr.File, "/vgirpc/") && !strings.Contains(fr.File, "verif_") {
+					fmt.Fprintf(&sb, " %s:%d", fr.File[strings.LastIndex(fr.File, "/")+1:], fr.Line)
+				}
+				if !more {
+					break
+				}
+			}
+			sb.WriteString("] ")
+		}
+		return sb.String()
+	}
+}
